@@ -38,9 +38,10 @@ SeqSet(s) == {s[i] : i \in 1..Len(s)}
 E == Trace[l]
 DieMark == 999999   \* element of `duty` meaning "this instance must shut down" (epoch ranks are small numbers)
 
+NewAdsT == [core |-> NewAds, opens |-> EmptyF]
 NoU == Update("", "", 0, 0, EmptyF, "", 0)
 
-TInit == /\ ns = NewNode("", 0) /\ sess = EmptyF /\ pend = EmptyF /\ prelay = {} /\ lastOwn = {} /\ duty = {} /\ ads = NewAds
+TInit == /\ ns = NewNode("", 0) /\ sess = EmptyF /\ pend = EmptyF /\ prelay = {} /\ lastOwn = {} /\ duty = {} /\ ads = NewAdsT
          /\ l = 1 /\ skip = TRUE
 
 Report(d) == d = {} \/ PrintT(<<"DIFF", l, E.ev, d>>)
@@ -61,7 +62,7 @@ Unpaid == IF skip THEN {} ELSE (IF DieMark \in duty /\ ns.alive THEN {"duplicate
 TReset == /\ IsEv("reset")
           /\ (IF Unpaid = {} THEN TRUE ELSE PrintT(<<"DIFF", l, "end_of_instance", Unpaid>>))
           /\ ns' = NewNode(E.self, E.epoch)
-          /\ sess' = EmptyF /\ pend' = EmptyF /\ prelay' = {} /\ lastOwn' = {} /\ duty' = {} /\ ads' = NewAds
+          /\ sess' = EmptyF /\ pend' = EmptyF /\ prelay' = {} /\ lastOwn' = {} /\ duty' = {} /\ ads' = NewAdsT
           /\ l' = l + 1 /\ skip' = FALSE
 
 Skipped == /\ l <= Len(Trace) /\ E.ev # "reset" /\ (skip \/ ~ns.alive)
@@ -147,10 +148,17 @@ TKnownDel ==
          d == IF n2.known # E.known THEN {"known"} ELSE {}
      IN ns' = n2 /\ UNCHANGED <<sess, pend, prelay, lastOwn, duty, ads>> /\ Advance(d)
 
+\* the session's goroutine is about to return (deferred clean-up of runProtocol): whatever way the session ended -
+\* peer gone, rejection, idle time-out, backend cancelled - the connection it registered is no longer listed, unless a
+\* newer session of the same peer has registered it again meanwhile
 TSessEnd == /\ Live("sess_end")
-            /\ sess' = IF Has(sess, E.sess) THEN [sess EXCEPT ![E.sess].phase = "closed"] ELSE sess
-            /\ pend' = Del(pend, E.sess)
-            /\ UNCHANGED <<ns, prelay, lastOwn, duty, ads>> /\ Advance({})
+            /\ LET s == E.sess
+                   peer == IF Has(sess, s) THEN sess[s].peer ELSE ""
+                   other == \E t \in (DOMAIN sess) \ {s} : sess[t].peer = peer /\ sess[t].phase # "closed"
+                   d == IF peer # "" /\ Has(ns.conn, peer) /\ ~other THEN {"session_ended_connection_kept"} ELSE {}
+               IN /\ sess' = IF Has(sess, s) THEN [sess EXCEPT ![s].phase = "closed"] ELSE sess
+                  /\ pend' = Del(pend, s)
+                  /\ UNCHANGED <<ns, prelay, lastOwn, duty, ads>> /\ Advance(d)
 
 \* an update naming this node as origin (1459-1480): same epoch -> ours, ignore; it suspects OUR epoch -> we are the
 \* later duplicate and must shut down; newer epoch -> the other one is a duplicate, say so; older -> ignore
@@ -171,24 +179,40 @@ TRuSeen ==
         /\ UNCHANGED <<sess, pend, prelay, lastOwn, duty, ads>> /\ Advance(d)
 
 \* ---- service advertisements (AdsCore): every event under serviceAdsLock
+\* ads = [core: AdsCore state, opens: svc -> set of <<from, to>>], the periods during which the node's own listener for
+\* svc was open and advertised (to = 0: still open); times are ranks >= 1
+OpensOf(svc) == IF Has(ads.opens, svc) THEN ads.opens[svc] ELSE {}
+
 TAdLocal ==
   /\ Live("ad_local")
-  /\ ads' = LocalOpen(ads, ns.id, E.svc, E.time, E.ctype, "")
+  /\ ads' = [core |-> LocalOpen(ads.core, ns.id, E.svc, E.time, E.ctype, ""),
+              opens |-> Put(ads.opens, E.svc, OpensOf(E.svc) \cup {<<E.time, 0>>})]
   /\ UNCHANGED <<ns, sess, pend, prelay, lastOwn, duty>> /\ Advance({})
 
 TAdWithdraw ==
   /\ Live("ad_withdraw")
-  /\ ads' = LocalClose(ads, ns.id, E.svc, E.time)
+  /\ ads' = [core |-> LocalClose(ads.core, ns.id, E.svc, E.time),
+              opens |-> Put(ads.opens, E.svc, {IF p[2] = 0 THEN <<p[1], E.time>> ELSE p : p \in OpensOf(E.svc)})]
   /\ UNCHANGED <<ns, sess, pend, prelay, lastOwn, duty>> /\ Advance({})
+
+\* sendServiceAds stamps an advertisement while it holds the listener lock for reading and the listener is registered;
+\* Close withdraws under the same lock for writing.  So every advertisement the owner sends carries a stamp from inside
+\* one of the listener's open periods - never one that is newer than the withdrawal that ended the period (receivers
+\* would take it for a new listing and the closed service would be listed again for good).
+TAdSend ==
+  /\ Live("ad_send")
+  /\ LET inside == \E p \in OpensOf(E.svc) : p[1] <= E.time /\ (p[2] = 0 \/ E.time <= p[2])
+         d == IF OpensOf(E.svc) # {} /\ ~inside THEN {"advertisement_stamped_outside_open_period"} ELSE {}
+     IN Keep /\ Advance(d)
 
 AdClassOf(c) == IF c \in {"stored", "replaced", "deleted", "cancel_unknown"} THEN "applied" ELSE c
 
 TAdRecv ==
   /\ Live("ad_recv")
   /\ LET m == Msg(E.owner, E.svc, E.time, E.cancel, E.ctype, "")
-         r == RecvAd(ads, m)
+         r == RecvAd(ads.core, m)
          d == IF AdClassOf(r.class) # E.result THEN {"ad_" \o r.class \o "_but_code_" \o E.result} ELSE {}
-     IN /\ ads' = r.st
+     IN /\ ads' = [ads EXCEPT !.core = r.st]
         /\ UNCHANGED <<ns, sess, pend, prelay, lastOwn, duty>> /\ Advance(d)
 
 TSeenExpire ==
@@ -268,7 +292,7 @@ THStatus ==
               \cup (IF ~ValidTable(ns.known, ns.id, E.table, E.costs) THEN {"table"} ELSE {})
      IN Keep /\ Advance(d)
 
-TNext == TReset \/ Skipped \/ TSessStart \/ TRecv \/ TReject \/ TConnAdd \/ TKnownAdd \/ TEstablished \/ TConnDel
+TNext == TReset \/ Skipped \/ TAdSend \/ TSessStart \/ TRecv \/ TReject \/ TConnAdd \/ TKnownAdd \/ TEstablished \/ TConnDel
          \/ TKnownDel \/ TSessEnd \/ TRuSelf \/ TRuSeen \/ TRuDup \/ TRuApply \/ TFlood \/ TMkUpdate \/ TRebuild
          \/ TShutdown \/ TOther \/ THStatus \/ TSeenExpire \/ TAdLocal \/ TAdWithdraw \/ TAdRecv
 
